@@ -13,7 +13,7 @@ import numpy as np
 
 from .. import gen, probes
 from ..common import Outcome, subseed
-from ..oracles import EPS, dense_bfgs, dense_from_compact, middle_cond, model_tol, model_value, ref_gcp
+from ..oracles import has_pairs, EPS, dense_bfgs, dense_from_compact, middle_cond, model_tol, model_value, ref_gcp
 
 LEVEL = "exploration"
 RULE = ("synthetic: every structural pattern per variable {at lb, interior, at ub} x {g<0, g=0, g>0} x {both bounds, lower only, "
@@ -108,7 +108,7 @@ def judge_gcp(out, x, g, lb, ub, mats, B, xcp, c, where, tags):
         return True
     # 5. auxiliary vector
     free = (xcp > lb) & (xcp < ub)
-    if np.any(free) and mats.use_factor:
+    if np.any(free) and has_pairs(mats):
         # the displacement is taken from the reference path (accumulated t*d, no cancellation), so the check
         # stays meaningful when the step is at the rounding level of x
         z = ref["z"]
@@ -336,7 +336,7 @@ def run(spec):
                     out.count("skipped_memory_inconsistent")
                     continue
                 mats, B = mm
-                if unit and mats.theta == 1.0 and mats.use_factor:
+                if unit and mats.theta == 1.0 and has_pairs(mats):
                     out.count("inputs_with_theta_exactly_one")
                 lb, ub = gen.rand_box(rng, n, gen.pick(rng, ["mixed", "boxed", "narrow", "lower", "upper", "none", "boxed_degenerate"]))
                 x = gen.rand_x0(rng, lb, ub, gen.pick(rng, ["interior", "face", "vertex"]))
